@@ -210,7 +210,7 @@ func ParseField(v reflect.Value, bytes []byte, params fieldParameters) error {
 			return nil
 		}
 	case reflect.Int, reflect.Int32, reflect.Int64:
-		if parsedInt, parse_err := parseInt64(bytes[talOff:]); err != nil {
+		if parsedInt, parse_err := parseInt64(bytes[talOff:]); parse_err != nil {
 			return parse_err
 		} else {
 			val.SetInt(parsedInt)
@@ -368,8 +368,11 @@ func ParseField(v reflect.Value, bytes []byte, params fieldParameters) error {
 
 		sliceLen := len(valArray)
 		newSlice := reflect.MakeSlice(sliceType, sliceLen, sliceLen)
+		// the tag of a SEQUENCE OF / SET OF belongs to the list, not to its elements (as in the encoder)
+		elemParams := params
+		elemParams.tagNumber = nil
 		for i := 0; i < sliceLen; i++ {
-			errParse := ParseField(newSlice.Index(i), valArray[i], params)
+			errParse := ParseField(newSlice.Index(i), valArray[i], elemParams)
 			if errParse != nil {
 				return errParse
 			}
